@@ -238,9 +238,10 @@ class CuboidalDescription(ShapeDescriptionBase):
     
     def __init__(self):
         super().__init__()
-        self.eqRadiusFactorMin = self.eqRadiusFactor(1)
+        #The public functions return the minimum factors at an aspect ratio of 1, so the limits have to come from the cuboidal equations
+        self.eqRadiusFactorMin = self._eqRadius(np.ones(1))[0]
         self.kineticFactorMin = self.kineticFactor(1.0001)
-        self.thermoFactorMin = self.thermoFactor(1)
+        self.thermoFactorMin = self._thermoFactor(np.ones(1))[0]
 
     def _eqRadius(self, ar):
         '''
